@@ -21,6 +21,12 @@ def rich_value(rng, depth):
                 continue
             seen.add(repr(k))
             es.append((k, rich_value(rng, depth - 1)))
+        if rng.random() < 0.15:
+            # sibling collections with the same entries in another order: each keeps its own order
+            ents = [(S(x), I(j)) for j, x in enumerate(rng.sample(['x', 'y', 'z', 'w'], rng.randint(2, 4)))]
+            es.append((S('first'), ('m', ents)))
+            es.append((S('second'), ('m', list(reversed(ents)))))
+            es.append((S('third'), ('l', [('m', ents), ('m', list(reversed(ents)))])))
         return ('m', es)
     if depth > 0 and r < 0.5:
         return ('l', [rich_value(rng, depth - 1) for _ in range(rng.randint(0, 3))])
